@@ -237,6 +237,55 @@ def check_proof(name, S, arg, order, cfg, out, tier, rng, label=''):
                     viol('timed-out-tableau-changed', 'step/finish/build changed a timed-out tableau', timeout=T)
 
 
+def check_manual(name, S, arg, order, cfg, out, rng, viol):
+    """Step limits on a tableau WITHOUT argument whose branch was filled by hand (no trunk is built, so the
+    step counter and the history length coincide)."""
+    from pytableaux.proof import Tableau
+    desig = tabs.uses_designation(name)
+    w0 = tabs.world0(name)
+    prem, conc = arg
+    from ..ref import syn
+    specs = ([('S', p, True, w0) for p in prem] + [('S', conc, False, w0)]) if desig else \
+        ([('S', p, None, w0) for p in prem] + [('S', syn.neg(conc), None, w0)])
+    opts = dict(is_group_optim=cfg['group_optim'], is_rank_optim=cfg['rank_optim'])
+
+    def make_manual(**kw):
+        lib.set_order(order)
+        t = Tableau(lib.logic(name), **opts, **kw)
+        b = t.branch()
+        for sp in specs:
+            b.append(tabs.mk_node(sp))
+        return t
+    try:
+        ref = make_manual(max_steps=200)
+        ref.build()
+    except Exception:
+        return
+    n = len(ref.history)
+    if ref.premature or not (1 <= n <= 40):
+        return
+    sig = runs.signature(ref)
+    for m in (list(range(1, n + 2)) if n <= 10 else sorted({1, 2, n - 1, n, n + 1} | set(rng.sample(range(1, n + 1), 4)))):
+        for driver in ('build', 'step'):
+            try:
+                t = make_manual(max_steps=m)
+                drive(t, driver)
+            except Exception as e:
+                viol('step-limit-run-raises', f'hand-filled tableau, max_steps={m}: {type(e).__name__}: {e}', max_steps=m, manual=True)
+                continue
+            out.count('manual_step_limit_runs')
+            if len(t.history) > m:
+                viol('history-exceeds-step-limit', f'hand-filled tableau without trunk: max_steps={m} but {len(t.history)} steps recorded',
+                     max_steps=m, manual=True)
+            if t.valid is not None or t.invalid is not None:
+                viol('verdict-without-argument', f'hand-filled tableau reports a verdict', max_steps=m, manual=True)
+            if m <= n and not t.premature:
+                viol('stopped-by-step-limit-but-not-premature', f'hand-filled tableau, max_steps={m} <= n={n}: premature={t.premature}',
+                     max_steps=m, manual=True)
+            if m >= n + 1 and (t.premature or runs.signature(t) != sig):
+                viol('limit-beyond-natural-length-changes-result', f'hand-filled tableau, max_steps={m} > n={n}', max_steps=m, manual=True)
+
+
 def check_locked(t, name, arg, viol, out, where):
     "After start: setters and rule-set mutators must raise IllegalStateError and change nothing."
     from pytableaux.errors import IllegalStateError
@@ -466,11 +515,13 @@ def run_unit(unit, out, tier, seed):
                 continue
 
             def viol(clause, msg, **extra):
-                out.violation('lifecycle', dict(logic=name, label=label, argument=gen.arg_to_json(arg), order=order, **extra),
+                out.violation('lifecycle', dict(logic=name, label=label, argument=gen.arg_to_json(arg), order=order, cfg=cfg, **extra),
                               dict(clause=clause), f'{name}: {gen.show_arg(arg)}: {clause}: {msg}', size=gen.arg_size(arg),
                               env=pc.env_for(order))
             for _ in range(4 if tier == 'quick' else 12):
                 check_interleaving(name, S, arg, order, out, rng, n_nat, verdict, viol)
+            if done % 2 == 0:
+                check_manual(name, S, arg, order, cfg, out, rng, viol)
 
 
 def replay(wit):
@@ -491,6 +542,10 @@ def replay(wit):
                 out.violation('lifecycle', {}, dict(clause=clause), msg)
             for _ in range(300):
                 check_interleaving(name, rsem.sem(name), arg, c['order'], out, rng, len(ref.history), (ref.valid, ref.invalid), viol)
+        elif c.get('manual'):
+            def viol(clause, msg, **extra):
+                out.violation('lifecycle', {}, dict(clause=clause), msg)
+            check_manual(name, rsem.sem(name), arg, c['order'], c.get('cfg', dict(group_optim=True, rank_optim=True)), out, rng, viol)
         else:
             check_proof(name, rsem.sem(name), arg, c['order'], c.get('cfg', dict(group_optim=True, rank_optim=True)), out, 'thorough', rng)
     same = [v for v in out.violations if v['diagnosis'] == wit['diagnosis']]
